@@ -239,14 +239,25 @@ impl Collector {
         let (summary, replay) = f();
         self.violations.insert(sig.clone(), Violation { sig, summary, replay, count: 1 });
     }
+    /// Violation whose witness is the generated case (property, tier, seed, k) plus a rendered detail.
+    pub fn violation_case(&mut self, sig: &str, k: u64, summary: String, detail: Value) {
+        let rj = json!({"kind": "case", "prop": self.prop, "tier": self.tier.name(), "seed": self.seed, "k": k, "detail": detail});
+        self.violation(sig, || (summary, rj));
+    }
+    /// publishes what is being executed right now (death / hang attribution)
+    pub fn publish(&self, sigkey: &str, desc: &str) {
+        self.progress.set_desc(sigkey, desc);
+    }
     pub fn inconclusive(&mut self, reason: &str) {
         if self.inconclusive.len() < 20 && !self.inconclusive.iter().any(|r| r == reason) {
             self.inconclusive.push(reason.to_string());
         }
     }
 
-    fn write(&self, path: &Path) {
+    fn write(&self, path: &Path, next_k: u64, done: bool) {
         let v = json!({
+            "next_k": next_k,
+            "done": done,
             "evaluations": self.evaluations,
             "counters": self.counters,
             "sets": self.sets,
@@ -329,7 +340,10 @@ pub fn time_cap(tier: Tier) -> Duration {
     Duration::from_secs(tier.pick(60, 1500))
 }
 
-/// Worker entry: runs cases k ≡ index (mod of).
+/// Worker entry: runs cases k ≡ index (mod of), starting at `start_k`, skipping `skip`.
+/// A checkpoint of everything collected so far is written about once per second, so that a
+/// worker that dies or hangs loses only the case it was running.
+#[allow(clippy::too_many_arguments)]
 pub fn worker_main(
     mut mon: Box<dyn Monitor>,
     prop: &str,
@@ -339,6 +353,8 @@ pub fn worker_main(
     of: u64,
     out: &Path,
     only_case: Option<u64>,
+    start_k: Option<u64>,
+    skip: &[u64],
 ) {
     install_panic_hook();
     let mut col = Collector::new(prop, tier, seed);
@@ -353,12 +369,21 @@ pub fn worker_main(
         let mut rng = Rng::derive(pseed, k, 0);
         mon.run_case(k, &mut rng, &mut col);
     } else {
-        let mut k = index;
+        let mut k = start_k.unwrap_or(index);
+        let mut last_ckpt = Instant::now();
         while k < total {
+            if skip.contains(&k) {
+                k += of;
+                continue;
+            }
             if t0.elapsed() > cap {
                 let remaining = (total - k + of - 1) / of;
                 col.count("cases_not_run_time_cap", remaining);
                 break;
+            }
+            if last_ckpt.elapsed() > Duration::from_millis(1000) {
+                col.write(out, k, false);
+                last_ckpt = Instant::now();
             }
             col.progress.set_case(k);
             let mut rng = Rng::derive(pseed, k, 0);
@@ -368,7 +393,7 @@ pub fn worker_main(
         }
     }
     mon.finish(&mut col);
-    col.write(out);
+    col.write(out, u64::MAX, true);
 }
 
 struct Known {
@@ -423,19 +448,22 @@ pub fn run_check(spec: &CheckSpec, tier: Tier, seed: u64) -> i32 {
         last_ctr: u64,
         last_change: Instant,
         done: bool,
+        index: u64,
+        skip: Vec<u64>,
+        respawns: u32,
     }
-    let spawn = |i: u64, only: Option<u64>, tag: &str| -> W {
-        let out = rundir.join(format!("{}{}.json", tag, i));
+    let spawn = |i: u64, only: Option<u64>, tag: &str, start: Option<u64>, skip: &[u64], gen: u32| -> W {
+        let out = rundir.join(format!("{}{}-{}.json", tag, i, gen));
         let _ = std::fs::remove_file(&out);
         let prog = Progress::open(&out.with_extension("cur"));
         let mut cmd = std::process::Command::new(&exe);
         cmd.arg("worker").arg(prop).arg(tier.name()).arg(seed.to_string()).arg(i.to_string()).arg(n.to_string()).arg(&out);
-        if let Some(k) = only {
-            cmd.arg(k.to_string());
-        }
+        cmd.arg(only.map(|k| k.to_string()).unwrap_or_else(|| "-".to_string()));
+        cmd.arg(start.map(|k| k.to_string()).unwrap_or_else(|| "-".to_string()));
+        cmd.arg(skip.iter().map(|k| k.to_string()).collect::<Vec<_>>().join(","));
         cmd.stdin(std::process::Stdio::null());
         let child = cmd.spawn().expect("spawn worker");
-        W { child, out, prog, last_ctr: 0, last_change: Instant::now(), done: false }
+        W { child, out, prog, last_ctr: 0, last_change: Instant::now(), done: false, index: i, skip: skip.to_vec(), respawns: gen }
     };
 
     let mut merged = Merged {
@@ -449,14 +477,14 @@ pub fn run_check(spec: &CheckSpec, tier: Tier, seed: u64) -> i32 {
         extra: BTreeMap::new(),
     };
 
-    let merge_file = |merged: &mut Merged, out: &Path| -> bool {
+    let merge_file = |merged: &mut Merged, out: &Path| -> Option<(u64, bool)> {
         let data = match std::fs::read(out) {
             Ok(d) => d,
-            Err(_) => return false,
+            Err(_) => return None,
         };
         let v: Value = match serde_json::from_slice(&data) {
             Ok(v) => v,
-            Err(_) => return false,
+            Err(_) => return None,
         };
         merged.evaluations += v["evaluations"].as_u64().unwrap_or(0);
         if let Some(o) = v["counters"].as_object() {
@@ -503,33 +531,34 @@ pub fn run_check(spec: &CheckSpec, tier: Tier, seed: u64) -> i32 {
                 merged.distinct.insert(u64::from_le_bytes(c.try_into().unwrap()));
             }
         }
-        true
+        Some((v["next_k"].as_u64().unwrap_or(u64::MAX), v["done"].as_bool().unwrap_or(false)))
     };
 
-    // --- phase 1: all workers
-    let mut ws: Vec<W> = (0..n).map(|i| spawn(i, None, "w")).collect();
-    let overall_cap = time_cap(tier) + Duration::from_secs(120);
+    // --- phase 1: all workers; a worker that dies or hangs is replaced by one that resumes
+    // from its last checkpoint and skips the case it was running
+    let mut ws: Vec<W> = (0..n).map(|i| spawn(i, None, "w", None, &[], 0)).collect();
+    let overall_cap = time_cap(tier) + Duration::from_secs(180);
     let mut suspects: Vec<(u64, String, String, String)> = Vec::new(); // (k, sigkey, desc, how)
     loop {
         let mut all_done = true;
+        let mut replacements: Vec<W> = Vec::new();
         for w in ws.iter_mut() {
             if w.done {
                 continue;
             }
+            let mut failed: Option<String> = None;
             match w.child.try_wait() {
                 Ok(Some(st)) => {
                     w.done = true;
-                    let ok = st.success() && merge_file(&mut merged, &w.out);
-                    if !ok {
-                        let (_, k, raw) = w.prog.read();
-                        let (sigkey, desc) = render_desc(&raw);
-                        let how = describe_status(&st);
-                        suspects.push((k, sigkey, desc, how));
+                    let r = if st.success() { merge_file(&mut merged, &w.out) } else { None };
+                    match r {
+                        Some((_, true)) => {}
+                        _ => failed = Some(describe_status(&st)),
                     }
                 }
                 Ok(None) => {
                     all_done = false;
-                    let (ctr, k, raw) = w.prog.read();
+                    let (ctr, _, _) = w.prog.read();
                     if ctr != w.last_ctr {
                         w.last_ctr = ctr;
                         w.last_change = Instant::now();
@@ -537,15 +566,36 @@ pub fn run_check(spec: &CheckSpec, tier: Tier, seed: u64) -> i32 {
                         let _ = w.child.kill();
                         let _ = w.child.wait();
                         w.done = true;
-                        let (sigkey, desc) = render_desc(&raw);
-                        suspects.push((k, sigkey, desc, "no progress".to_string()));
+                        failed = Some("no progress".to_string());
                     }
                 }
                 Err(_) => {
                     w.done = true;
                 }
             }
+            if let Some(how) = failed {
+                let (_, k, raw) = w.prog.read();
+                let (sigkey, desc) = render_desc(&raw);
+                suspects.push((k, sigkey, desc, how.clone()));
+                // salvage the checkpoint (a failed worker did not merge above unless it exited 0 without 'done')
+                let resume = if how.starts_with("exit0") { None } else { merge_file(&mut merged, &w.out) };
+                let next = match resume {
+                    Some((nk, false)) if nk != u64::MAX => nk,
+                    _ => w.index,
+                };
+                if w.respawns < 6 && suspects.len() < 40 {
+                    let mut skip = w.skip.clone();
+                    skip.push(k);
+                    // cases before the checkpoint were merged; resume there, never re-run the culprit
+                    let start = if resume.is_some() { next } else { k + n };
+                    replacements.push(spawn(w.index, None, "w", Some(start), &skip, w.respawns + 1));
+                    all_done = false;
+                } else {
+                    merged.inconclusive.push(format!("worker {} failed repeatedly; its remaining cases were not run", w.index));
+                }
+            }
         }
+        ws.extend(replacements);
         if all_done {
             break;
         }
@@ -555,6 +605,7 @@ pub fn run_check(spec: &CheckSpec, tier: Tier, seed: u64) -> i32 {
                     let _ = w.child.kill();
                     let _ = w.child.wait();
                     w.done = true;
+                    let _ = merge_file(&mut merged, &w.out);
                 }
             }
             merged.inconclusive.push("overall wall-clock watchdog fired".to_string());
@@ -564,19 +615,27 @@ pub fn run_check(spec: &CheckSpec, tier: Tier, seed: u64) -> i32 {
     }
 
     // --- phase 2: every suspect case is re-run alone with a generous budget
+    let mut seen_keys: Vec<String> = Vec::new();
+    let mut reruns = 0;
     for (idx, (k, sigkey, desc, how)) in suspects.iter().enumerate() {
-        if idx >= 6 {
-            merged.inconclusive.push(format!("{} more workers died/hung; not re-run", suspects.len() - 6));
+        let key = format!("{}|{}", sigkey, how);
+        if seen_keys.contains(&key) {
+            continue;
+        }
+        seen_keys.push(key);
+        if reruns >= 8 {
+            merged.inconclusive.push("more distinct worker failures than the re-run budget; not all were re-run alone".to_string());
             break;
         }
-        let mut w = spawn(1000 + idx as u64, Some(*k), "single");
+        reruns += 1;
+        let mut w = spawn(1000 + idx as u64, Some(*k), "single", None, &[], 0);
         let start = Instant::now();
         let budget = Duration::from_secs(std::env::var("AXMON_SINGLE_SECS").ok().and_then(|s| s.parse().ok()).unwrap_or(120));
         let mut outcome: Option<String> = None;
         loop {
             match w.child.try_wait() {
                 Ok(Some(st)) => {
-                    if st.success() && merge_file(&mut merged, &w.out) {
+                    if st.success() && merge_file(&mut merged, &w.out).is_some() {
                         outcome = None;
                     } else {
                         outcome = Some(describe_status(&st));
